@@ -324,30 +324,71 @@ Inductive dres := DOk (n : node) | DErr | DPanic.
 (* decodeRef's result carries the rest of the buffer *)
 Inductive rres := ROk (n : node) (rest : bytes) | RErr | RPanic.
 
+(* decodeRef, given the decoder for embedded nodes *)
+Definition decode_ref_with (dn : bytes -> dres) (buf : bytes) : rres :=
+  match split buf with
+  | None => RErr
+  | Some (KList, _, rest) =>
+    if (32 <? length buf - length rest)%nat then RErr
+    else match dn buf with
+         | DOk n => ROk n rest
+         | DErr => RErr
+         | DPanic => RPanic
+         end
+  | Some (KString, v, rest) =>
+    match length v with
+    | O => ROk Empty rest
+    | 32%nat => ROk (HashN v) rest
+    | _ => RErr
+    end
+  | Some (KByte, _, _) => RErr
+  end.
+
+(* decodeFull: k more child references, then the value slot *)
+Fixpoint decode_children (dr : bytes -> rres) (k : nat) (elems : bytes) (acc : list node) : dres :=
+  match k with
+  | O =>
+    match split_string elems with
+    | None => DErr
+    | Some (v, _) => DOk (Full (rev acc ++ [match v with [] => Empty | _ => Val v end]))
+    end
+  | S k' =>
+    match dr elems with
+    | ROk cld rest => decode_children dr k' rest (cld :: acc)
+    | RErr => DErr
+    | RPanic => DPanic
+    end
+  end.
+
+(* decodeShort *)
+Definition decode_short (dr : bytes -> rres) (elems : bytes) : dres :=
+  match split_string elems with
+  | None => DErr
+  | Some (kbuf, rest) =>
+    match kbuf with
+    | [] => DPanic                      (* compactToHex: slice bounds out of range *)
+    | _ =>
+      let key := compact_to_hex kbuf in
+      if has_term key then
+        match split_string rest with
+        | None => DErr
+        | Some (v, _) => DOk (Short key (Val v))
+        end
+      else
+        match dr rest with
+        | ROk r _ => DOk (Short key r)
+        | RErr => DErr
+        | RPanic => DPanic
+        end
+    end
+  end.
+
 (* fuel bounds the nesting of embedded nodes; an embedded node is at most 32
    bytes and each level loses at least one byte, so 40 is never exhausted *)
 Fixpoint decode_node (fuel : nat) (buf : bytes) : dres :=
   match fuel with
   | O => DErr
   | S f =>
-    let decode_ref (buf : bytes) : rres :=
-      match split buf with
-      | None => RErr
-      | Some (KList, _, rest) =>
-        if (32 <? length buf - length rest)%nat then RErr
-        else match decode_node f buf with
-             | DOk n => ROk n rest
-             | DErr => RErr
-             | DPanic => RPanic
-             end
-      | Some (KString, v, rest) =>
-        match length v with
-        | O => ROk Empty rest
-        | 32%nat => ROk (HashN v) rest
-        | _ => RErr
-        end
-      | Some (KByte, _, _) => RErr
-      end in
     match buf with
     | [] => DErr
     | _ =>
@@ -355,45 +396,8 @@ Fixpoint decode_node (fuel : nat) (buf : bytes) : dres :=
       | None => DErr
       | Some (elems, _) =>
         let c := match count_values (S (length elems)) elems with Some c => c | None => O end in
-        if Nat.eqb c 2 then
-          (* decodeShort *)
-          match split_string elems with
-          | None => DErr
-          | Some (kbuf, rest) =>
-            match kbuf with
-            | [] => DPanic                      (* compactToHex: slice bounds out of range *)
-            | _ =>
-              let key := compact_to_hex kbuf in
-              if has_term key then
-                match split_string rest with
-                | None => DErr
-                | Some (v, _) => DOk (Short key (Val v))
-                end
-              else
-                match decode_ref rest with
-                | ROk r _ => DOk (Short key r)
-                | RErr => DErr
-                | RPanic => DPanic
-                end
-            end
-          end
-        else if Nat.eqb c 17 then
-          (* decodeFull *)
-          (fix children (k : nat) (elems : bytes) (acc : list node) : dres :=
-             match k with
-             | O =>
-               match split_string elems with
-               | None => DErr
-               | Some (v, _) =>
-                 DOk (Full (rev acc ++ [match v with [] => Empty | _ => Val v end]))
-               end
-             | S k' =>
-               match decode_ref elems with
-               | ROk cld rest => children k' rest (cld :: acc)
-               | RErr => DErr
-               | RPanic => DPanic
-               end
-             end) 16%nat elems []
+        if Nat.eqb c 2 then decode_short (decode_ref_with (decode_node f)) elems
+        else if Nat.eqb c 17 then decode_children (decode_ref_with (decode_node f)) 16 elems []
         else DErr
       end
     end
@@ -698,6 +702,174 @@ Fixpoint derive_trie (i : N) (items : list bytes) (t : node) : node :=
 Definition derive_sha (H : bytes -> bytes) (items : list bytes) : bytes :=
   root_hash H (derive_trie 0 items Empty).
 
+(* ---- database.go: the reference-counting node cache ----------------------- *)
+
+(* cachedNode: hash, implicit children (gatherChildren: hash references inside
+   the collapsed node, with multiplicity), blob size, parents, explicit
+   children (the children map: child -> count) *)
+Record cnode := mkC {
+  cn_hash : bytes; cn_kids : list bytes; cn_size : N; cn_parents : N; cn_ext : list (bytes * N)
+}.
+
+(* Database: the in-memory nodes in flush-list order (oldest first), the
+   explicit children of the meta root (hash {}), the disk keys *)
+Record dbstate := mkDb { db_nodes : list cnode; db_meta : list (bytes * N); db_disk : list bytes }.
+
+Definition db_empty : dbstate := mkDb [] [] [].
+
+Fixpoint find_node (l : list cnode) (h : bytes) : option cnode :=
+  match l with
+  | [] => None
+  | c :: r => if list_eqb (cn_hash c) h then Some c else find_node r h
+  end.
+
+Fixpoint update_node (l : list cnode) (h : bytes) (f : cnode -> cnode) : list cnode :=
+  match l with
+  | [] => []
+  | c :: r => if list_eqb (cn_hash c) h then f c :: r else c :: update_node r h f
+  end.
+
+Fixpoint remove_node (l : list cnode) (h : bytes) : list cnode :=
+  match l with
+  | [] => []
+  | c :: r => if list_eqb (cn_hash c) h then r else c :: remove_node r h
+  end.
+
+(* gatherChildren on a decoded collapsed node *)
+Fixpoint gather (n : node) : list bytes :=
+  match n with
+  | Short _ c => gather c
+  | Full cs => flat_map_first gather 16 cs
+  | HashN h => [h]
+  | _ => []
+  end.
+
+Definition blob_kids (blob : bytes) : list bytes :=
+  match decode_node decode_fuel blob with DOk n => gather n | _ => [] end.
+
+Definition bump (d : N) (c : cnode) : cnode :=
+  mkC (cn_hash c) (cn_kids c) (cn_size c) (cn_parents c + d) (cn_ext c).
+
+(* Database.insert *)
+Definition db_insert (s : dbstate) (hb : bytes * bytes) : dbstate :=
+  let (h, blob) := hb in
+  match find_node (db_nodes s) h with
+  | Some _ => s
+  | None =>
+    let kids := blob_kids blob in
+    let nodes := fold_left (fun l k => update_node l k (bump 1)) kids (db_nodes s) in
+    mkDb (nodes ++ [mkC h kids (len blob) 0 []]) (db_meta s) (db_disk s)
+  end.
+
+Fixpoint ext_get (l : list (bytes * N)) (h : bytes) : N :=
+  match l with
+  | [] => 0
+  | (k, c) :: r => if list_eqb k h then c else ext_get r h
+  end.
+
+Fixpoint ext_set (l : list (bytes * N)) (h : bytes) (c : N) : list (bytes * N) :=
+  match l with
+  | [] => if N.eqb c 0 then [] else [(h, c)]
+  | (k, c0) :: r => if list_eqb k h then (if N.eqb c 0 then r else (k, c) :: r) else (k, c0) :: ext_set r h c
+  end.
+
+(* Database.reference; the meta root is the parent [] *)
+Definition db_reference (s : dbstate) (child parent : bytes) : dbstate :=
+  match find_node (db_nodes s) child with
+  | None => s
+  | Some _ =>
+    match parent with
+    | [] =>
+      mkDb (update_node (db_nodes s) child (bump 1)) (ext_set (db_meta s) child (ext_get (db_meta s) child + 1)) (db_disk s)
+    | _ =>
+      match find_node (db_nodes s) parent with
+      | None => s                                    (* Go: nil dereference; the harness never does this *)
+      | Some p =>
+        if N.ltb 0 (ext_get (cn_ext p) child) then s
+        else
+          let nodes := update_node (db_nodes s) child (bump 1) in
+          mkDb (update_node nodes parent (fun c => mkC (cn_hash c) (cn_kids c) (cn_size c) (cn_parents c) (ext_set (cn_ext c) child 1)))
+               (db_meta s) (db_disk s)
+      end
+    end
+  end.
+
+(* Database.dereference(child, parent); fuel bounds the recursion depth *)
+Fixpoint db_deref (fuel : nat) (s : dbstate) (child parent : bytes) : dbstate :=
+  match fuel with
+  | O => s
+  | S f =>
+    (* drop the explicit parent->child reference *)
+    let s1 :=
+      match parent with
+      | [] => let c := ext_get (db_meta s) child in
+              if N.ltb 0 c then mkDb (db_nodes s) (ext_set (db_meta s) child (c - 1)) (db_disk s) else s
+      | _ => match find_node (db_nodes s) parent with
+             | None => s
+             | Some p => let c := ext_get (cn_ext p) child in
+                         if N.ltb 0 c
+                         then mkDb (update_node (db_nodes s) parent
+                                      (fun x => mkC (cn_hash x) (cn_kids x) (cn_size x) (cn_parents x) (ext_set (cn_ext x) child (c - 1))))
+                                   (db_meta s) (db_disk s)
+                         else s
+             end
+      end in
+    match find_node (db_nodes s1) child with
+    | None => s1
+    | Some n =>
+      let p' := if N.ltb 0 (cn_parents n) then cn_parents n - 1 else 0 in
+      let s2 := mkDb (update_node (db_nodes s1) child (fun x => mkC (cn_hash x) (cn_kids x) (cn_size x) p' (cn_ext x)))
+                     (db_meta s1) (db_disk s1) in
+      if N.eqb p' 0 then
+        (* cascade over childs(): explicit children, then implicit ones *)
+        let s3 := fold_left (fun st k => db_deref f st k child) (map fst (cn_ext n) ++ cn_kids n) s2 in
+        mkDb (remove_node (db_nodes s3) child) (db_meta s3) (db_disk s3)
+      else s2
+    end
+  end.
+
+Definition db_dereference (s : dbstate) (root : bytes) : dbstate :=
+  match root with
+  | [] => s
+  | _ => db_deref (S (length (db_nodes s))) s root []
+  end.
+
+Definition add_disk (d : list bytes) (h : bytes) : list bytes :=
+  if existsb (list_eqb h) d then d else d ++ [h].
+
+(* Database.Cap(limit): flush the oldest nodes until the size is at most limit *)
+Fixpoint cap_loop (nodes : list cnode) (size limit : N) (disk : list bytes) : list cnode * list bytes :=
+  match nodes with
+  | [] => ([], disk)
+  | c :: r =>
+    if N.ltb limit size
+    then cap_loop r (size - (96 + cn_size c)) limit (add_disk disk (cn_hash c))
+    else (nodes, disk)
+  end.
+
+Definition db_size (s : dbstate) : N :=
+  fold_left (fun a c => a + 32 + cn_size c) (db_nodes s) 0 + 64 * len (map cn_size (db_nodes s)).
+
+Definition db_cap (s : dbstate) (limit : N) : dbstate :=
+  let (nodes, disk) := cap_loop (db_nodes s) (db_size s) limit (db_disk s) in
+  mkDb nodes (db_meta s) disk.
+
+(* Database.commit + uncache: everything in memory reachable from the node goes to disk *)
+Fixpoint db_uncache (fuel : nat) (s : dbstate) (h : bytes) : dbstate :=
+  match fuel with
+  | O => s
+  | S f =>
+    match find_node (db_nodes s) h with
+    | None => s
+    | Some n =>
+      let s1 := mkDb (remove_node (db_nodes s) h) (db_meta s) (add_disk (db_disk s) h) in
+      fold_left (fun st k => db_uncache f st k) (map fst (cn_ext n) ++ cn_kids n) s1
+    end
+  end.
+
+Definition db_commit (s : dbstate) (root : bytes) : dbstate :=
+  db_uncache (S (length (db_nodes s))) s root.
+
 (* ---- histories and the reference map ------------------------------------- *)
 
 Inductive kvop := KUpdate (k v : bytes) | KDelete (k : bytes).
@@ -799,10 +971,39 @@ Inductive op :=
 | ODerive (items : list bytes) (root : bytes)                          (* types.DeriveSha *)
 | OKeccak (data h : bytes).                                            (* the table's hash really is Keccak-256 *)
 
+(* database schedules *)
+Inductive gop :=
+| GInsert (nodes : list (bytes * bytes))       (* the nodes a Trie.Commit inserted, in order *)
+| GReference (child parent : bytes)
+| GDereference (root : bytes)
+| GCap (limit : N)
+| GCommit (root : bytes)
+| GObserve (flush : list (bytes * N)) (meta : list (bytes * N)) (disk : list bytes).
+                                               (* flush-list (hash, parents) oldest first; meta root children; disk keys *)
+
+Definition gstep (s : dbstate * bool) (o : gop) : dbstate * bool :=
+  let (st, ok) := s in
+  match o with
+  | GInsert nodes => (fold_left db_insert nodes st, ok)
+  | GReference c p => (db_reference st c p, ok)
+  | GDereference r => (db_dereference st r, ok)
+  | GCap l => (db_cap st l, ok)
+  | GCommit r => (db_commit st r, ok)
+  | GObserve flush meta disk =>
+    (st, ok
+         && list_eqb_by (fun a b => list_eqb (fst a) (fst b) && N.eqb (snd a) (snd b))
+                        (map (fun c => (cn_hash c, cn_parents c)) (db_nodes st)) flush
+         && forallb (fun p => N.eqb (ext_get meta (fst p)) (snd p)) (db_meta st)
+         && forallb (fun p => N.eqb (ext_get (db_meta st) (fst p)) (snd p)) meta
+         && forallb (fun h => existsb (list_eqb h) disk) (db_disk st)
+         && forallb (fun h => existsb (list_eqb h) (db_disk st)) disk)
+  end.
+
 Record case := mkCase {
   c_secure : bool;                      (* SecureTrie: keys are hashed first *)
   c_tab : list (bytes * bytes);         (* memo of Keccak-256 (data, hash) computed by the implementation's library *)
-  c_ops : list op
+  c_ops : list op;
+  c_gops : list gop                     (* database schedule (empty for trie histories) *)
 }.
 
 Definition tab_hash (tab : list (bytes * bytes)) (e : bytes) : bytes :=
@@ -851,7 +1052,8 @@ Definition run_op (H : bytes -> bytes) (secure : bool) (s : rstate) (o : op) : r
   end.
 
 Definition case_ok (c : case) : bool :=
-  r_ok (fold_left (run_op (tab_hash (c_tab c)) (c_secure c)) (c_ops c) (mkR Empty [] true)).
+  r_ok (fold_left (run_op (tab_hash (c_tab c)) (c_secure c)) (c_ops c) (mkR Empty [] true))
+  && snd (fold_left gstep (c_gops c) (db_empty, true)).
 
 Fixpoint mismatches_from (i : N) (l : list case) : list N :=
   match l with
